@@ -36,6 +36,8 @@ def run(F, R, ctx):
     _run(F, R, ctx)
     if "jit2" in (F.meta.get("features") or []):
         jit_move_rule(F, R)
+    from . import c11
+    c11.union_rule(F, R, "C03.u")
 
 
 def _run(F, R, ctx):
